@@ -356,6 +356,118 @@ Proof.
   destruct (phase3 N C A N [] z2 true) as [Hok3 Hv3]; auto.
 Qed.
 
+Lemma flat_special_not_marker G zf p : i_special (info_at_g G zf p) <> Some NxDomain.
+Proof.
+  unfold info_at_g. simpl. destruct (cut_at_g G zf p); [discriminate|].
+  destruct (alookup p (zf_cnames zf)); discriminate.
+Qed.
+
+(* ------------------------------------------------------------------ every node of the built tree is a name that exists *)
+Definition has_content (y : node) : bool :=
+  negb (rrsets_is_empty (n_rrsets y)) || match n_special y with Some (Cut _) => true | Some (Cname _) => true | _ => false end.
+
+Lemma find_child_in l cs d : find_child l cs = Some d -> exists k, In (k, d) cs.
+Proof.
+  induction cs as [|[k c] cs IH]; simpl; [discriminate|].
+  destruct (k =? l); [intro E; inversion E; subst; eauto|]. intro H. destruct (IH H) as [k' Hk]. eauto.
+Qed.
+
+Lemma exists_from_content : forall p x y, node_at x p = Some y -> has_content y = true -> node_exists x = true.
+Proof.
+  induction p as [|l p IH]; intros x y Hy Hc; simpl in Hy.
+  - inversion Hy; subst. destruct y as [rs sp cs]. rewrite node_exists_unfold. unfold has_content in Hc. simpl in Hc.
+    rewrite Hc. reflexivity.
+  - destruct (find_child l (n_children x)) as [d|] eqn:E; [|discriminate].
+    assert (Hd : node_exists d = true) by (eapply IH; eauto).
+    destruct x as [rs sp cs]. rewrite node_exists_unfold. simpl in E.
+    destruct (find_child_in _ _ _ E) as [k Hk].
+    assert (Hex : existsb (fun lc => node_exists (snd lc)) cs = true).
+    { apply existsb_exists. exists (k, d). auto. }
+    rewrite Hex. apply orb_true_r.
+Qed.
+
+Lemma node_at_app : forall p r x, node_at x (p ++ r) = match node_at x p with Some y => node_at y r | None => None end.
+Proof.
+  induction p as [|l p IH]; intros r x; simpl; auto.
+  destruct (find_child l (n_children x)); auto.
+Qed.
+
+Lemma is_prefix_app : forall p o, is_prefix p o = true -> exists r, o = p ++ r.
+Proof.
+  induction p as [|x p IH]; intros o H; simpl in *; [eauto|].
+  destruct o as [|y o]; [discriminate|]. apply andb_true_iff in H. destruct H as [H1 H2].
+  apply N.eqb_eq in H1. subst. destruct (IH _ H2) as [r Hr]. exists r. simpl. congruence.
+Qed.
+
+Lemma normal_owner_content o N : In o (map fst N) -> forallb wf_normal N = true ->
+  exists r rs, alookup o N = Some (r :: rs).
+Proof.
+  induction N as [|[k v] N IH]; simpl; [tauto|]. intros Hin Hwf.
+  apply andb_true_iff in Hwf. destruct Hwf as [Hw Hwf].
+  destruct (name_eqb k o) eqn:E.
+  - unfold wf_normal in Hw. simpl in Hw. destruct v; [simpl in Hw; discriminate|eauto].
+  - destruct Hin as [Hin|Hin]; [subst; rewrite name_eqb_refl in E; discriminate|auto].
+Qed.
+
+Lemma cut_owner_content o C : In o (map fst C) -> forallb wf_cut C = true ->
+  exists ns ds, alookup o C = Some (Some ns, ds).
+Proof.
+  induction C as [|[k [ns ds]] C IH]; simpl; [tauto|]. intros Hin Hwf.
+  apply andb_true_iff in Hwf. destruct Hwf as [Hw Hwf].
+  destruct (name_eqb k o) eqn:E.
+  - unfold wf_cut in Hw. simpl in Hw. destruct ns; [eauto|rewrite andb_false_r in Hw; discriminate].
+  - destruct Hin as [Hin|Hin]; [subst; rewrite name_eqb_refl in E; discriminate|auto].
+Qed.
+
+Lemma cname_owner_content {A} o (L : list (name * A)) : In o (map fst L) -> exists c, alookup o L = Some c.
+Proof.
+  induction L as [|[k v] L IH]; simpl; [tauto|]. intros Hin.
+  destruct (name_eqb k o) eqn:E; [eauto|].
+  destruct Hin as [Hin|Hin]; [subst; rewrite name_eqb_refl in E; discriminate|auto].
+Qed.
+
+Lemma owner_has_content zf o : wf_zone zf = true -> In o (owners zf) ->
+  forall y, info_of y = info_at_g (zf_normal zf) zf o -> has_content y = true.
+Proof.
+  intros Hwf Hin y Hy. destruct (wf_zone_parts zf Hwf) as (_ & _ & _ & HwN & HwC & _).
+  unfold has_content. change (n_rrsets y) with (i_rrsets (info_of y)). change (n_special y) with (i_special (info_of y)).
+  rewrite Hy. unfold info_at_g, cut_at_g. simpl.
+  unfold owners in Hin. apply in_app_or in Hin. destruct Hin as [Hin|Hin].
+  - destruct (normal_owner_content _ _ Hin HwN) as (r & rs & E). rewrite E. reflexivity.
+  - apply in_app_or in Hin. destruct Hin as [Hin|Hin].
+    + destruct (cut_owner_content _ _ Hin HwC) as (ns & ds & E). rewrite E. apply orb_true_r.
+    + destruct (cname_owner_content _ _ Hin) as (c & E). rewrite E.
+      destruct (alookup o (zf_cuts zf)) as [[[ns|] ds]|]; apply orb_true_r.
+Qed.
+
+(* the reader's view of the built zone is the flat view of the content *)
+Theorem build_lview zf : wf_zone zf = true -> forall p, lview (fst (zf_build zf)) p = flat_view zf p.
+Proof.
+  intros Hwf p. destruct (build_view zf Hwf) as [_ Hv].
+  set (z := fst (zf_build zf)) in *.
+  pose proof (Hv p) as Hp. unfold view_of, flat_view, flat_view_g in Hp. unfold lview, flat_view, flat_view_g.
+  destruct (node_at z p) as [x|] eqn:Ex; simpl in Hp.
+  2:{ destruct (exists_name zf p); [discriminate|reflexivity]. }
+  destruct (exists_name zf p) eqn:Ee; [|discriminate].
+  assert (Hi : info_of x = info_at_g (zf_normal zf) zf p) by congruence.
+  assert (Hci : cinfo x = info_of x).
+  { unfold cinfo, info_of. f_equal. destruct (n_special x) as [[c|c|]|] eqn:Es; auto.
+    exfalso. apply (flat_special_not_marker (zf_normal zf) zf p). rewrite <- Hi. exact Es. }
+  rewrite Hci, Hi.
+  assert (Hl : is_apex p || node_exists x = true).
+  { destruct p as [|l p']; [reflexivity|]. simpl.
+    unfold exists_name in Ee. cbn [is_apex orb] in Ee. apply existsb_exists in Ee. destruct Ee as (o & Ho & Hpre).
+    destruct (is_prefix_app (l :: p') o Hpre) as [r Hr].
+    pose proof (Hv o) as Hvo. unfold view_of, flat_view, flat_view_g in Hvo.
+    assert (Heo : exists_name zf o = true).
+    { unfold exists_name. apply orb_true_iff. right. apply existsb_exists. exists o. split; auto. apply is_prefix_refl. }
+    rewrite Heo in Hvo. destruct (node_at z o) as [y|] eqn:Ey; [|discriminate]. simpl in Hvo.
+    assert (Hyi : info_of y = info_at_g (zf_normal zf) zf o) by congruence.
+    rewrite Hr, node_at_app, Ex in Ey.
+    eapply exists_from_content; eauto. eapply owner_has_content; eauto. }
+  rewrite Hl. reflexivity.
+Qed.
+
 (* ------------------------------------------------------------------ build_answers_spec *)
 Lemma vspec_ext V W q qt : (forall p, V p = W p) -> vspec V q qt = vspec W q qt.
 Proof.
@@ -376,36 +488,27 @@ Proof.
   unfold wf_cname in H1. simpl in H1. destruct k; [discriminate|]. simpl. auto.
 Qed.
 
-Lemma flat_special_not_marker G zf p : i_special (info_at_g G zf p) <> Some NxDomain.
+(* a tree whose reader's view is the flat view of well-formed content answers by the spec *)
+Lemma lview_answers_spec t zf : wf_zone zf = true -> (forall p, lview t p = flat_view zf p) ->
+  forall q qt, query t q qt = spec zf q qt.
 Proof.
-  unfold info_at_g. simpl. destruct (cut_at_g G zf p); [discriminate|].
-  destruct (alookup p (zf_cnames zf)); discriminate.
+  intros Hwf H q qt. destruct (wf_zone_parts zf Hwf) as (_ & _ & _ & _ & HwC & HwA).
+  assert (Hroot : cinfo t = info_at_g (zf_normal zf) zf []).
+  { specialize (H []). unfold lview, flat_view, flat_view_g in H. simpl in H. congruence. }
+  assert (Hs : clean (n_special t) = None).
+  { change (i_special (cinfo t) = None). rewrite Hroot. unfold info_at_g, cut_at_g. simpl.
+    rewrite (wf_cut_apex _ HwC), (wf_cname_apex _ _ HwA). reflexivity. }
+  rewrite query_is_vspec by assumption. unfold spec. f_equal.
+  - assert (Hr : n_rrsets t = match alookup [] (zf_normal zf) with Some rs => rs | None => [] end).
+    { change (n_rrsets t) with (i_rrsets (cinfo t)). rewrite Hroot. reflexivity. }
+    unfold get_soa, soa_of. change soa_type with rt_soa. rewrite Hr.
+    destruct (alookup [] (zf_normal zf)); reflexivity.
+  - apply vspec_ext. exact H.
 Qed.
 
 Theorem build_answers_spec zf : wf_zone zf = true ->
   forall q qt, query (fst (zf_build zf)) q qt = spec zf q qt.
-Proof.
-  intros Hwf q qt. destruct (build_view zf Hwf) as [_ Hv].
-  destruct (wf_zone_parts zf Hwf) as (_ & _ & _ & _ & HwC & HwA).
-  set (z := fst (zf_build zf)) in *.
-  assert (Hroot : info_of z = info_at_g (zf_normal zf) zf []).
-  { specialize (Hv []). unfold view_of, flat_view, flat_view_g in Hv. simpl in Hv. congruence. }
-  assert (Hs : n_special z = None).
-  { change (i_special (info_of z) = None). rewrite Hroot. unfold info_at_g, cut_at_g. simpl.
-    rewrite (wf_cut_apex _ HwC), (wf_cname_apex _ _ HwA). reflexivity. }
-  assert (Hnx : nx_closed z).
-  { apply no_marker_closed. intros p x Hp Hx.
-    specialize (Hv p). unfold view_of in Hv. rewrite Hp in Hv. simpl in Hv.
-    unfold flat_view, flat_view_g in Hv. destruct (exists_name zf p); [|discriminate].
-    assert (Hi : info_of x = info_at_g (zf_normal zf) zf p) by congruence.
-    apply (flat_special_not_marker (zf_normal zf) zf p). rewrite <- Hi. exact Hx. }
-  rewrite query_is_vspec by assumption. unfold spec. f_equal.
-  - assert (Hr : n_rrsets z = match alookup [] (zf_normal zf) with Some rs => rs | None => [] end).
-    { change (n_rrsets z) with (i_rrsets (info_of z)). rewrite Hroot. reflexivity. }
-    unfold get_soa, soa_of. change soa_type with rt_soa. rewrite Hr.
-    destruct (alookup [] (zf_normal zf)); reflexivity.
-  - apply vspec_ext. exact Hv.
-Qed.
+Proof. intros Hwf. apply lview_answers_spec; auto. apply build_lview. exact Hwf. Qed.
 
 (* ANY: the answer is one of the RRsets at the matched name (hash order in the
    implementation, list order here) *)
